@@ -104,6 +104,7 @@ public:
   // scripting (set before the statements are issued; read by the backend thread only)
   std::atomic<int64_t> throw_on_write{-1}; // 0-based call index that throws
   std::atomic<int64_t> throw_on_flush{-1};
+  std::atomic<int64_t> throw_on_flush_from{-1}; // every flush call with index >= this throws (a sink whose flush keeps failing)
   std::atomic<uint32_t> slow_us{0};
   std::atomic<bool> keep_stmt{false};
   std::atomic<uint64_t> writes{0}, flushes{0};
@@ -150,6 +151,7 @@ public:
   {
     uint64_t const n = flushes.fetch_add(1, std::memory_order_relaxed);
     if (static_cast<int64_t>(n) == throw_on_flush.load(std::memory_order_relaxed)) throw SinkThrow{"scripted flush failure sink " + std::to_string(_id)};
+    if (int64_t from = throw_on_flush_from.load(std::memory_order_relaxed); from >= 0 && static_cast<int64_t>(n) >= from) throw SinkThrow{"scripted persistent flush failure sink " + std::to_string(_id)};
     SinkEv e;
     e.g = ticket();
     e.sink = _id;
